@@ -525,6 +525,18 @@ func runHistory(w *lib.Writer, hs *histScript) bool {
 		if waits || hs.scion {
 			sctx = &scriptCtx{}
 			sctx.wait = func() time.Duration {
+				// the peer must have dealt with every request sent so far (it may lag behind a
+				// client that has already given up on a short deadline) before the class of the
+				// next attempt is looked up
+				rec.mu.Lock()
+				ends := 0
+				for _, e := range rec.events {
+					if e.kind == evFilter || (e.kind == evLog && e.logger == 0 && e.level >= slog.LevelInfo) {
+						ends++
+					}
+				}
+				rec.mu.Unlock()
+				thePeer.waitDone(totalAttempts+ends, 5*time.Second)
 				d := longWait
 				if thePeer.nextWaits() {
 					d = dropWait
